@@ -39,6 +39,7 @@ pub fn cfg_from(sc: &Value) -> Cfg {
         allow_fail: b("allowFail", false),
         c14: b("c14", false),
         burst: b("burst", true),
+        reentrant: b("reentrant", false),
         nsinks: c.get("sinks").and_then(|x| x.as_array()).map(|a| a.len()).unwrap_or(1),
     }
 }
@@ -290,6 +291,11 @@ pub fn build(sc: &Value, env: &Arc<Env>) -> Graph {
             probes.push(None);
         }
         sink_kinds.push(kind);
+    }
+    {
+        let pups = puppets.clone();
+        let k: crate::env::Kicker = Arc::new(move |ix, pup| pups[&pup].top(ix, "emit"));
+        *env.kicker.lock().unwrap_or_else(|e| e.into_inner()) = Some(k);
     }
     Graph { env: Arc::clone(env), root, probes, sink_kinds, puppets, nurse }
 }
